@@ -1,6 +1,7 @@
 import Nstd.Life.LemmasStableOps
 import Nstd.Life.LemmasOps
 import Nstd.Life.LemmasBlk
+import Nstd.Life.LemmasAssign
 /-
   Property theorems for C05: elements of List, Map, MultiMap, HashMap, HashSet, PoolList and PoolMap
   never move while they live; swap hands the elements over without relocating them; the pool
@@ -65,6 +66,30 @@ theorem remove_keeps_others (ops : List Op) (c : Var) (j : Nat) (st' : State)
   rcases hk c0 it hi with ⟨_, hkept⟩ | ⟨hrem, _⟩
   · exact hkept
   · exact absurd hrem hne
+
+/-- C05 `removal_only_destroys`: `remove(iterator)`, `remove(key)`, `remove(value)` and `clear` emit nothing but
+    destructor calls - no assignment and no construction: a removal never copies a neighbour's key or value into the
+    removed node (the textbook "replace by the in-order neighbour" deletion is excluded), it relinks. -/
+theorem removal_only_destroys (st st' : State) (m : Micro)
+    (hm : (∃ c j, m = .remove c j) ∨ (∃ c k, m = .removeKey c k) ∨ (∃ c v, m = .removeVal c v) ∨ (∃ c, m = .clear c))
+    (he : exec st m = some st') :
+    ∃ evs, st'.log = st.log ++ evs ∧ ∀ e, e ∈ evs → ∃ l, e = .dtor l :=
+  Assign.removal_only_dtors m hm he
+
+/-- C05 `assign_only_value`: the only assignment a step on a node container ever performs has the VALUE object of an
+    existing item of that container as destination (insert of an existing key into Map / HashMap, `*it = v`);
+    key objects are never assigned. -/
+theorem assign_only_value (st st' : State) (m : Micro) (c : Var) (hc : m.nodeTargets = [c] ∨ ∃ d, m.nodeTargets = [c, d])
+    (he : exec st m = some st') :
+    ∃ evs, st'.log = st.log ++ evs ∧ ∀ dst src, Ev.assign dst src ∈ evs → ∃ it, it ∈ (st.nodes c).items ∧ dst = it.loc 1 :=
+  Assign.node_assign_only_value m c hc he
+
+/-- C05 `overwrite_same_key`: in an insertion the overwritten value belongs to the item that carries the inserted key. -/
+theorem overwrite_same_key (st st' : State) (c : Var) (pos : Option Nat) (k v : Option SrcRef)
+    (he : exec st (.put c pos k v) = some st') :
+    ∃ evs, st'.log = st.log ++ evs ∧ ∀ dst src, Ev.assign dst src ∈ evs →
+      ∃ it r kp, it ∈ (st.nodes c).items ∧ dst = it.loc 1 ∧ k = some r ∧ r.payload st = some kp ∧ keyOf st it = some kp :=
+  Assign.put_assign_same_key c pos k v he
 
 /-- C05 `swap_hands_over`: swap exchanges the item lists (and free lists, blocks, hash tables) of the two
     variables; no event is emitted and no object is touched: every element keeps its slot and now belongs
